@@ -3,6 +3,7 @@ package rules
 import (
 	"go/ast"
 	"go/types"
+	"strings"
 
 	"verif/mlbcheck/chk"
 )
@@ -716,24 +717,36 @@ func c07Fallback(p *chk.Prog, r *chk.Report) {
 		}
 		x.Check("Allocate:fallback-loop", f.Pos(), n == 1, "", "no loop collecting the unpinned pools")
 	}
-	fr := need(x, p, ctrlPkg, "ServiceReconciler", "forceReload")
-	if fr != nil {
-		g := fr.Graph()
-		var send *ast.SendStmt
-		inSelect := false
-		ast.Inspect(fr.Body, func(nd ast.Node) bool {
-			if ss, ok := nd.(*ast.SendStmt); ok && fr.MatchNew("RECV.Reload", ss.Chan) != nil {
-				send = ss
-				if _, isComm := p.Parent(ss).(*ast.CommClause); isComm {
-					inSelect = true
-				}
+	// the reload request: wherever it is sent (forceReload, or in place where that helper was folded into its callers), it is
+	// a plain send, not an alternative of a select
+	nSend := 0
+	for _, cf := range p.FuncsIn(ctrlPkg) {
+		if cf.Body == nil || cf.Lit != nil {
+			continue
+		}
+		cf := cf
+		ast.Inspect(cf.Body, func(nd ast.Node) bool {
+			ss, ok := nd.(*ast.SendStmt)
+			if !ok {
+				return true
 			}
+			se, isSel := ast.Unparen(ss.Chan).(*ast.SelectorExpr)
+			if !isSel || se.Sel.Name != "Reload" {
+				return true
+			}
+			if t := cf.Info().TypeOf(ss.Value); t == nil || !strings.HasSuffix(t.String(), "event.GenericEvent") {
+				return true
+			}
+			nSend++
+			_, inSelect := p.Parent(ss).(*ast.CommClause)
+			x.Check("reload-send@"+cf.Name(), ss.Pos(), !inSelect, "", "the reload request can be dropped (an alternative of a select): `would block` only means the receiver is not parked on the unbuffered channel at this instant - the released address is never offered to the Services waiting for it")
 			return true
 		})
-		ok := send != nil && !inSelect
-		if ok {
-			ok = !g.MustPass(chk.Site{}, nil, true, func(nd ast.Node) bool { return nd == ast.Node(send) }).Found
-		}
-		x.Check("forceReload:always-delivered", fr.Pos(), ok, "", "the reload request can be dropped (a select with a default, or a path without the send): `would block` only means the receiver is not parked on the unbuffered channel at this instant - the released address is never offered to the Services waiting for it")
+	}
+	x.Check("reload-send:sites", 0, nSend >= 1, "", "no send of a reload event on a Reload channel in the controllers package")
+	if fr := p.LookupFunc(ctrlPkg, "ServiceReconciler", "forceReload"); fr != nil {
+		g := fr.Graph()
+		w := g.MustPass(chk.Site{}, nil, true, func(nd ast.Node) bool { _, isSend := nd.(*ast.SendStmt); return isSend })
+		x.Check("forceReload:always-delivered", fr.Pos(), !w.Found, "", "forceReload can return without having sent the reload request")
 	}
 }
